@@ -403,6 +403,11 @@ var repairs = []repair{
 				continue
 			}
 			up := strings.ToUpper(orig[k].Literal) + "("
+			if strings.ContainsAny(up, "`'\"") {
+				// the name itself contains a quote rune: the printed text is not even tokenised as intended
+				p = strings.Replace(p, up, option.QuoteIdentifier(orig[k].Literal)+"(", -1)
+				continue
+			}
 			p = rewriteTopLevel(p, func(rs []rune, i int) (string, int) {
 				if hasPrefixAt(rs, i, up) && (i == 0 || !isWordRune(rs[i-1])) {
 					return option.QuoteIdentifier(orig[k].Literal) + "(", len([]rune(up))
@@ -596,6 +601,7 @@ type parseStream struct {
 	corpus   []string
 	fails    map[string][]failure
 	proc     *hc.Proc
+	tables   string
 	maxRunes int
 }
 
@@ -604,10 +610,29 @@ func newParseStream(o *hc.Out, g *hc.Gen) *parseStream {
 	for k, v := range src {
 		o.Stats[k] = v
 	}
-	return &parseStream{o: o, g: g, corpus: c, fails: map[string][]failure{}, proc: hc.NewProc("")}
+	// the tables the evaluated queries read (NULLs and duplicates in every column)
+	dir := os.Getenv("VERIF_SCRATCH")
+	if dir == "" {
+		dir = os.TempDir()
+	}
+	dir, err := os.MkdirTemp(dir, "c18-tables-")
+	if err != nil {
+		panic(err)
+	}
+	for name, body := range tableFiles {
+		if err := os.WriteFile(filepath.Join(dir, name), []byte(body), 0o644); err != nil {
+			panic(err)
+		}
+	}
+	proc := hc.NewProc(dir)
+	_ = proc.P.Tx.SetFlag(option.CPUFlag, int64(1))
+	return &parseStream{o: o, g: g, corpus: c, fails: map[string][]failure{}, proc: proc, tables: dir}
 }
 
-func (ps *parseStream) close() { ps.proc.Close() }
+func (ps *parseStream) close() {
+	ps.proc.Close()
+	_ = os.RemoveAll(ps.tables)
+}
 
 func (ps *parseStream) fail(law string, f failure) {
 	ps.o.Count("law_seen:" + law)
@@ -820,6 +845,11 @@ func (ps *parseStream) evalLaw(text string, ansi bool) (law, printed, detail str
 	if a == b {
 		return "", p, a
 	}
+	if ps.eval(text, ansi) != a || ps.eval(p, ansi) != b {
+		// the evaluation itself is not repeatable (not a property of the printer)
+		ps.o.Count("eval.not_repeatable")
+		return "", p, a
+	}
 	detail = "original: " + a + "  printed: " + b
 	if blank := blankUnrecognisedOperators(text, false, ansi); blank != text {
 		// the original text contains an unrecognised operator; without it the text evaluates like the printed form
@@ -906,6 +936,11 @@ func (ps *parseStream) witnesses() (plan []job) {
 			plan = append(plan, ps.job(text, prep, ansi, "witness", eval && !prep))
 		}
 	}
+	// every combination of the optional clauses, on the tables t / u (both quote modes; prepared mode printed only)
+	for _, c := range clauseMatrix() {
+		plan = append(plan, ps.job(c.text, false, false, "clause_matrix", c.eval))
+		plan = append(plan, ps.job(c.text, true, true, "clause_matrix", false))
+	}
 	return plan
 }
 
@@ -926,8 +961,10 @@ func (ps *parseStream) plan(n int) (plan []job) {
 			plan = append(plan, ps.job(s, prep, ansi, "corpus_mutated", false))
 		case k < 28: // generated query
 			plan = append(plan, ps.job(genQuery(g, prep, ansi, false), prep, ansi, "generated", false))
-		case k < 34: // generated constant query: evaluated as well
+		case k < 31: // generated constant query: evaluated as well
 			plan = append(plan, ps.job(genQuery(g, false, ansi, true), false, ansi, "generated_const", true))
+		case k < 34: // generated query on the tables t / u: evaluated as well
+			plan = append(plan, ps.job(genTableQuery(g, ansi), false, ansi, "generated_table", true))
 		case k < 37: // mutation of a generated query
 			plan = append(plan, ps.job(mutate(g, genQuery(g, prep, ansi, false), ps.corpus), prep, ansi, "generated_mutated", false))
 		case k < 39: // raw scanner-dictionary text
